@@ -195,8 +195,10 @@ class Gen(object):
         out = []
         if rng.random() < 0.3:
             out.append('class="%s"' % rng.choice(['k', 'm n']))
-        if rng.random() < 0.2 and not self.modelled:
-            out.append('title="T$%s"' % rng.choice(list(VARS_ATOM) + list(loopvars)))
+        if rng.random() < 0.2:
+            names = list(VARS_ATOM) + list(loopvars)
+            out.append(rng.choice(['title="T$%s"', 'title="$%s"', 'title="${%s}-$b"', 'id="$%s"', 'lang="a ${%s} $c"',
+                                   'title="T${xs}${%s}"']) % rng.choice(names))
             self.features.add('attr-interp')
         elif rng.random() < 0.1:
             out.append('title="Tip"')
@@ -219,9 +221,7 @@ class Gen(object):
         m = self.modelled
         dirs = []
         newvars = []
-        kinds = ['if', 'for', 'with', 'choose', 'strip', 'content', 'replace', 'def', 'match']
-        if not m:
-            kinds += ['attrs']
+        kinds = ['if', 'for', 'with', 'choose', 'strip', 'content', 'replace', 'def', 'match', 'attrs']
         k = rng.choice([1, 1, 1, 2, 2, 3])
         for name in rng.sample(kinds, min(k, len(kinds))):
             if name == 'if':
@@ -246,7 +246,10 @@ class Gen(object):
                     dirs.append(('replace', rand_expr(rng, m, 'any', loopvars)))
             elif name == 'attrs':
                 if not any(d[0] == 'replace' for d in dirs):
-                    dirs.append(('attrs', rng.choice(["{'id': a}", 'None', "{'class': None}", "[('k', s)]"])))
+                    dirs.append(('attrs', rng.choice(["{'id': a}", 'None', "{'class': None}", "[('k', s)]",
+                                                      "{'title': b, 'id': n}", "[('class', c), ('class', s)]",
+                                                      "{'title': None, 'class': s}", rng.choice(VARS_ATOM), '{}',
+                                                      "[('title', n), ('id', None), ('k', a)]"])))
             elif name == 'def':
                 self.ndefs += 1
                 fn = 'f%d' % self.ndefs
